@@ -51,6 +51,69 @@ func init() {
 		Floor: map[string]int{"v2": 1, "root": 1},
 		Run:   runR049,
 	})
+	core.Register(&core.Rule{
+		ID:    "R17.10",
+		Title: "shared registries are updated atomically",
+		Text: "For every package-level sync.Map of the runtime packages: no function both reads it (Load / Range) and writes it (Store / Delete) — a registration that must not overwrite goes through LoadOrStore (or CompareAndSwap / Swap), " +
+			"whose answer decides.  A Load followed by a Store is a check-then-act window: two concurrent registrations both pass the check and the later Store silently replaces the earlier entry, without any data race for the race detector to see.",
+		Props: []string{"C17"},
+		Floor: map[string]int{"v2": 1, "root": 1},
+		Run:   runR1710,
+	})
+}
+
+func runR1710(c *core.Ctx) {
+	n := 0
+	for _, p := range c.M.Roots {
+		rel := c.M.Rel(p.PkgPath)
+		if strings.HasPrefix(rel, "internal") || strings.HasPrefix(rel, "codegen") || rel == "cmd" {
+			continue
+		}
+		inf := p.TypesInfo
+		// package-level sync.Map variables
+		maps := map[types.Object]bool{}
+		for _, name := range p.Types.Scope().Names() {
+			if v, ok := p.Types.Scope().Lookup(name).(*types.Var); ok {
+				if nn := namedOf(v.Type()); nn != nil && nn.Obj().Pkg() != nil && nn.Obj().Pkg().Path() == "sync" && nn.Obj().Name() == "Map" {
+					maps[v] = true
+				}
+			}
+		}
+		for m := range maps {
+			for _, fd := range c.M.FuncDecls(rel) {
+				if fd.Body == nil || strings.HasSuffix(c.M.Fset.File(fd.Pos()).Name(), "_test.go") {
+					continue
+				}
+				var reads, writes []string
+				ast.Inspect(fd.Body, func(x ast.Node) bool {
+					call, ok := x.(*ast.CallExpr)
+					if !ok {
+						return true
+					}
+					sel, ok := core.Unparen(call.Fun).(*ast.SelectorExpr)
+					if !ok || core.ObjOf(inf, sel.X) != m {
+						return true
+					}
+					switch sel.Sel.Name {
+					case "Load", "Range":
+						reads = append(reads, sel.Sel.Name)
+					case "Store", "Delete":
+						writes = append(writes, sel.Sel.Name)
+					}
+					return true
+				})
+				if len(reads)+len(writes) == 0 {
+					continue
+				}
+				n++
+				c.Check(len(reads) == 0 || len(writes) == 0, rel, core.DeclName(fd), "use of the shared map "+m.Name()+" is a single atomic step", fd.Pos(), "",
+					fmt.Sprintf("%s then %s on %s in one function: between the two another goroutine can register the same key, and the later Store replaces it unnoticed", strings.Join(reads, "/"), strings.Join(writes, "/"), m.Name()))
+			}
+		}
+	}
+	if n == 0 {
+		c.OK("restlicodec", "-", "no package-level sync.Map is read and written by plain Load / Store", token.NoPos, "")
+	}
 }
 
 func runR048(c *core.Ctx) {
